@@ -1,4 +1,4 @@
-"""Watchdogged worker for C17: reads `<entry> <hex>` lines, prints `<outcome line>\t<maxrss_kb>\t<ms>`."""
+"""Watchdogged worker for C17: reads `<entry> <hex>` lines, prints `<outcome line>\t<maxrss_kb>\t<cpu ms>`."""
 import resource
 import signal
 import sys
@@ -19,7 +19,10 @@ def on_alarm(*_):
 def main():
     cap = int(sys.argv[1]) if len(sys.argv) > 1 else 2 << 30
     resource.setrlimit(resource.RLIMIT_AS, (cap, cap))
+    # promptness is judged on the CPU time of this process (a loaded machine must not turn into an alarm): SIGPROF after 10 s
+    # of CPU, and a generous wall-clock alarm for a parser that sleeps or blocks instead of spinning
     signal.signal(signal.SIGALRM, on_alarm)
+    signal.signal(signal.SIGPROF, on_alarm)
     hangs = 0
     for line in sys.stdin:
         if hangs >= 3:
@@ -27,8 +30,9 @@ def main():
             continue
         entry, _, hexs = line.strip().partition(" ")
         data = bytes.fromhex(hexs)
-        t0 = time.time()
-        signal.alarm(10)
+        t0 = time.process_time()
+        signal.alarm(90)
+        signal.setitimer(signal.ITIMER_PROF, 10.0)
         try:
             e_name, _, e_src = entry.partition(":")
             if e_name == "rflat":
@@ -52,9 +56,10 @@ def main():
             out = "!MemoryError"
         except BaseException as e:  # noqa: BLE001
             out = "!!" + type(e).__name__
+        signal.setitimer(signal.ITIMER_PROF, 0)
         signal.alarm(0)
         rss = resource.getrusage(resource.RUSAGE_SELF).ru_maxrss
-        print(f"{out}\t{rss}\t{int((time.time() - t0) * 1000)}", flush=True)
+        print(f"{out}\t{rss}\t{int((time.process_time() - t0) * 1000)}", flush=True)
 
 
 main()
